@@ -1,66 +1,37 @@
 (* C08 -- answers depend on the view only: any tree, however it was reached,
    whose nodes are exactly the existing names of a well-formed content [zf]
    and carry [zf]'s data answers like the zone built directly from [zf].
-   The known update-history classes are exactly the ways in which
-   ZoneUpdater / the write interface break that correspondence (a marked node,
-   a left-over node, a delegation or alias kept as / instead of a plain RRset). *)
+   The remaining known update-history classes are exactly the ways in which
+   ZoneUpdater breaks that correspondence: a delegation or alias kept as /
+   instead of a plain RRset. *)
 From Coq Require Import NArith List Bool Lia Permutation.
 From DV Require Import Base.Outcome C08.Gen C08.Model C08.Spec C08.ProofsQuery C08.ProofsBuild C08.ProofsHist.
 Import ListNotations.
 Local Open Scope N_scope.
 
-Definition represents (t : node) (zf : zonefile) : Prop := forall p, view_of t p = flat_view zf p.
+(* [t] represents content [zf]: the reader's view of the tree (existing nodes,
+   markers ignored) is the flat view of [zf] *)
+Definition represents (t : node) (zf : zonefile) : Prop := forall p, lview t p = flat_view zf p.
 
-Lemma represents_root t zf : wf_zone zf = true -> represents t zf -> n_special t = None.
+(* names = existing names: the apex and the ancestors-or-selves of owner names *)
+Lemma represents_names t zf : represents t zf -> forall p, vexists (lview t) p = exists_name zf p.
 Proof.
-  intros Hwf H. destruct (wf_zone_parts zf Hwf) as (_ & _ & _ & _ & HwC & HwA).
-  specialize (H []). unfold view_of, flat_view, flat_view_g in H. simpl in H.
-  assert (Hi : info_of t = info_at_g (zf_normal zf) zf []) by congruence.
-  change (i_special (info_of t) = None). rewrite Hi. unfold info_at_g, cut_at_g. simpl.
-  rewrite (wf_cut_apex _ HwC), (wf_cname_apex _ _ HwA). reflexivity.
-Qed.
-
-Lemma represents_no_marker t zf : represents t zf -> no_marker t.
-Proof.
-  intros H p x Hp Hx. specialize (H p). unfold view_of in H. rewrite Hp in H. simpl in H.
-  unfold flat_view, flat_view_g in H. destruct (exists_name zf p); [|discriminate].
-  assert (Hi : info_of x = info_at_g (zf_normal zf) zf p) by congruence.
-  apply (flat_special_not_marker (zf_normal zf) zf p). rewrite <- Hi. exact Hx.
-Qed.
-
-(* nodes = existing names: the apex and the ancestors-or-selves of owner names *)
-Lemma represents_nodes t zf : represents t zf ->
-  forall p, (exists x, node_at t p = Some x) <-> exists_name zf p = true.
-Proof.
-  intros H p. specialize (H p). unfold view_of, flat_view, flat_view_g in H.
-  destruct (node_at t p) as [x|]; destruct (exists_name zf p); simpl in H; try discriminate; split; eauto.
-  intros [x Hx]. discriminate. discriminate.
+  intros H p. unfold vexists. rewrite H. unfold flat_view, flat_view_g. destruct (exists_name zf p); reflexivity.
 Qed.
 
 Theorem answers_depend_on_view_only t zf : wf_zone zf = true -> represents t zf ->
   forall q qt, query t q qt = spec zf q qt /\ query t q qt = query (fst (zf_build zf)) q qt.
 Proof.
   intros Hwf H q qt.
-  assert (E : query t q qt = spec zf q qt).
-  { rewrite query_is_vspec.
-    - unfold spec. f_equal.
-      + assert (Hi : info_of t = info_at_g (zf_normal zf) zf []).
-        { specialize (H []). unfold view_of, flat_view, flat_view_g in H. simpl in H. congruence. }
-        assert (Hr : n_rrsets t = match alookup [] (zf_normal zf) with Some rs => rs | None => [] end).
-        { change (n_rrsets t) with (i_rrsets (info_of t)). rewrite Hi. reflexivity. }
-        unfold get_soa, soa_of. change soa_type with rt_soa. rewrite Hr.
-        destruct (alookup [] (zf_normal zf)); reflexivity.
-      + apply vspec_ext. exact H.
-    - eapply represents_root; eauto.
-    - apply no_marker_closed. eapply represents_no_marker; eauto. }
+  assert (E : query t q qt = spec zf q qt) by (apply lview_answers_spec; assumption).
   split; [exact E|]. rewrite E. symmetry. apply build_answers_spec. exact Hwf.
 Qed.
 
 (* update histories.  A history is in a known class for content [zf] when the
-   published tree does not represent [zf] at some name; outside, the zone
-   answers like the directly built one. *)
+   reader's view of the published tree differs from the flat view of [zf] at
+   some name; outside, the zone answers like the directly built one. *)
 Definition KnownHistory (h : list op) (zf : zonefile) : Prop :=
-  exists p, view_of (run h) p <> flat_view zf p.
+  exists p, lview (run h) p <> flat_view zf p.
 
 Lemma known_history_not_represented h zf : KnownHistory h zf -> ~ represents (run h) zf.
 Proof. intros [p Hp] R. apply Hp. apply R. Qed.
@@ -73,37 +44,35 @@ Qed.
 
 (* the builder itself establishes the correspondence (non-vacuity of [represents]) *)
 Lemma build_represents zf : wf_zone zf = true -> represents (fst (zf_build zf)) zf.
-Proof. intro H. exact (proj2 (build_view zf H)). Qed.
+Proof. intro H. exact (build_lview zf H). Qed.
 
-(* each known class is a breach of [represents]: a marked node (K1), a left-over
-   node (K2, remove_all, rollback), a special that the content does not have or
-   lacks (K3 and its converse) *)
-Lemma marked_node_not_represented t zf p x :
-  node_at t p = Some x -> n_special x = Some NxDomain -> ~ represents t zf.
-Proof. intros Hp Hx R. exact (represents_no_marker t zf R p x Hp Hx). Qed.
-
-Lemma leftover_node_not_represented t zf p x :
-  node_at t p = Some x -> exists_name zf p = false -> ~ represents t zf.
-Proof.
-  intros Hp He R. assert (E : exists_name zf p = true) by (apply (represents_nodes t zf R p); eauto). congruence.
-Qed.
-
+(* the remaining known classes are breaches of [represents]: the delegation /
+   alias state of a node differs from what the content says (K3 and its
+   converse; a surviving special also keeps a deleted name alive) *)
 Lemma special_mismatch_not_represented t zf p x :
-  node_at t p = Some x -> n_special x <> i_special (info_at_g (zf_normal zf) zf p) -> ~ represents t zf.
+  node_at t p = Some x -> is_apex p || node_exists x = true ->
+  clean (n_special x) <> i_special (info_at_g (zf_normal zf) zf p) -> ~ represents t zf.
 Proof.
-  intros Hp Hs R. specialize (R p). unfold view_of in R. rewrite Hp in R. simpl in R.
+  intros Hp He Hs R. specialize (R p). unfold lview in R. rewrite Hp, He in R.
   unfold flat_view, flat_view_g in R. destruct (exists_name zf p); [|discriminate].
-  apply Hs. assert (Hi : info_of x = info_at_g (zf_normal zf) zf p) by congruence.
+  apply Hs. assert (Hi : cinfo x = info_at_g (zf_normal zf) zf p) by congruence.
   rewrite <- Hi. reflexivity.
 Qed.
 
-(* the witnesses of ProofsHist are instances *)
-Example k1_is_marked : exists x, node_at (run h_k1) [lb] = Some x /\ n_special x = Some NxDomain.
-Proof. eexists. split; vm_compute; reflexivity. Qed.
-Example k2_is_marked : exists x, node_at (run h_k2) [lfoo] = Some x /\ n_special x = Some NxDomain.
-Proof. eexists. split; vm_compute; reflexivity. Qed.
-Example abort_is_leftover : exists x, node_at (run h_abort) [lb] = Some x /\ n_special x = None /\ n_rrsets x = [].
-Proof. eexists. repeat split; vm_compute; reflexivity. Qed.
+Lemma surviving_name_not_represented t zf p x :
+  node_at t p = Some x -> node_exists x = true -> exists_name zf p = false -> ~ represents t zf.
+Proof.
+  intros Hp He Hn R. pose proof (represents_names t zf R p) as E. unfold vexists, lview in E.
+  rewrite Hp, He, orb_true_r in E. congruence.
+Qed.
+
+(* markers and left-over nodes are invisible to the reader *)
+Example k1_marker_harmless :
+  (exists x, node_at (run h_k1) [lb] = Some x /\ n_special x = Some NxDomain) /\ history_ok h_k1 [lb; la] T_A.
+Proof. split; [eexists; split; vm_compute; reflexivity|unfold history_ok; vm_compute; reflexivity]. Qed.
+Example abort_leftover_harmless :
+  (exists x, node_at (run h_abort) [lb] = Some x /\ node_exists x = false) /\ lview (run h_abort) [lb] = None.
+Proof. split; [eexists; split; vm_compute; reflexivity|vm_compute; reflexivity]. Qed.
 
 (* ------------------------------------------------------------------ insertion order *)
 Lemma existsb_perm {A} (f : A -> bool) l l' : Permutation l l' -> existsb f l = existsb f l'.
